@@ -53,19 +53,30 @@ func execC15(t *testing.T, p Plan, src kernel.Source) Result {
 			cut = len(data)
 		}
 		class := fmt.Sprintf("%s/%s", p.Cfg.L1, spec.Proto)
+		closeMode := simnet.PeerClosed
+		if p.X["silent"] != 0 {
+			closeMode = simnet.PeerClosedSilent
+		}
 		if cut > 0 {
-			if !w.Send(victim, data[:cut]) {
+			if p.X["close_first"] != 0 {
+				// the client writes and closes at once: rend finds the bytes and the EOF
+				// together, and whatever it tries to answer meets a dead socket
+				w.Deliver(victim, data[:cut])
+			} else if !w.Send(victim, data[:cut]) {
 				viol("no_quiescence", class, "no quiescence after %d bytes", cut)
 				return
 			}
 		}
-		victim.C.PeerClose(simnet.PeerClosed)
+		victim.C.PeerClose(closeMode)
 		w.Stat.FaultsFired["client_close"]++
 		if !w.Settle() {
 			viol("no_quiescence", class, "no quiescence after the client closed at byte %d", cut)
 			return
 		}
 		where := fmt.Sprintf("client closed after %d of %d bytes of %s", cut, len(data), describePipe(p.Steps[0].Pipe))
+		if p.X["close_first"] != 0 {
+			where += fmt.Sprintf(" (sent and closed at once, write mode silent=%v)", p.X["silent"] != 0)
+		}
 		// 1. rend closed its side of the client connection
 		if !victim.C.ClosedByRend() {
 			viol("client_conn_open", class, "%s: rend did not close the client connection", where)
@@ -167,12 +178,16 @@ func c15Streams() map[string][][]wire.Op {
 		{{Kind: "set", Key: "a", Data: v, Opaque: 10}, {Kind: "get", Keys: []string{"a", "bb"}, Quiets: []bool{true, false}, Opaque: 20}, {Kind: "delete", Key: "a", Opaque: 30}},
 		{{Kind: "set", Key: "a", Data: v, Opaque: 40}, {Kind: "quit", Opaque: 41}},
 		{{Kind: "noop", Opaque: 50}, {Kind: "version", Opaque: 51}},
+		{{Kind: "quit", Opaque: 52}},
+		{{Kind: "get", Keys: []string{"nokey"}, Quiets: []bool{false}, Opaque: 53}, {Kind: "quit", Opaque: 54}},
 	}
 	bin := append([][]wire.Op{}, common...)
 	bin = append(bin,
 		[]wire.Op{{Kind: "set", Key: "a", Data: v, Opaque: 60}, {Kind: "gat", Key: "a", TTL: 5, Opaque: 61}},
 		[]wire.Op{{Kind: "set", Key: "a", Data: v, Opaque: 70}, {Kind: "get", Keys: []string{"a", "bb", "a"}, Quiets: []bool{true, true, true}, Noop: true, Opaque: 80}},
 		[]wire.Op{{Kind: "set", Key: "a", Data: v, Opaque: 90, Quiet: true}, {Kind: "replace", Key: "a", Data: v, Opaque: 91, Quiet: true}},
+		[]wire.Op{{Kind: "set", Key: "a", Data: v, Opaque: 92, Quiet: true}, {Kind: "quit", Opaque: 93}},
+		[]wire.Op{{Kind: "quit", Opaque: 94, Quiet: true}},
 	)
 	return map[string][][]wire.Op{"text": common, "bin": bin}
 }
@@ -228,6 +243,21 @@ func enumC15(tier string) []Plan {
 						p := Plan{Prop: "C15", Seed: uint64(0xC15000 + n), Cfg: cfg, Conns: []ConnSpec{{Port: port, Proto: proto}},
 							Steps: []Step{{Pipe: ops}}, X: map[string]int64{"cut": int64(cut)}}
 						out = append(out, p)
+						// the same cut with the client closing in the same instant as it sends
+						// (replies then meet a dead socket): EPIPE mode for every such cut, silent
+						// mode where the prefix ends with a complete request
+						if cut > 0 && (tier == "thorough" || cut%3 == 0 || cut == len(data)) {
+							q := p.Clone()
+							q.Seed += 1 << 32
+							q.X["close_first"] = 1
+							out = append(out, q)
+							if cut == len(data) || cut%11 == 0 {
+								r := q.Clone()
+								r.Seed += 1 << 33
+								r.X["silent"] = 1
+								out = append(out, r)
+							}
+						}
 					}
 				}
 			}
@@ -254,13 +284,14 @@ func genC15(seed uint64, tier string) Plan {
 	for _, op := range ops {
 		n += len(encode(proto, op))
 	}
-	return Plan{Prop: "C15", Seed: seed, Cfg: cfg, Conns: []ConnSpec{{Port: port, Proto: proto}}, Steps: []Step{{Pipe: ops}}, X: map[string]int64{"cut": int64(g.n(n + 1))}}
+	return Plan{Prop: "C15", Seed: seed, Cfg: cfg, Conns: []ConnSpec{{Port: port, Proto: proto}}, Steps: []Step{{Pipe: ops}},
+		X: map[string]int64{"cut": int64(g.n(n + 1)), "close_first": int64(g.n(2)), "silent": int64(g.n(2))}}
 }
 
 func init() {
 	register(&Prop{
 		ID: "C15", Gen: genC15, Exec: execC15, Enumerate: enumC15, Level: "fault_enumeration",
-		Rule:       "fault = the client closes its connection after exactly n bytes of its request stream. Enumerated part: representative streams (each command, a large set, pipelines, quiet batches, quiet sets, quit; 10 text + 13 binary) x 12 deployments (L1-only / L1L2 / batch port, direct or chunked per-connection handlers, with and without the locking wrapper) x every prefix length n = 0..len (quick: every n for a rotating quarter of the pairs, stride 7 plus both ends for the rest; thorough: every n). Seeded part: random pipelines with a random cut. After quiescence: rend closed the client socket, every backend connection dialled for that client is closed, the goroutine count is back to the pre-connection baseline, every key lock acquired was released, and a fresh client is served on the same keys. Every case is non-trivial (a fault is injected in each); distinct = distinct plan hash",
+		Rule:       "fault = the client closes its connection after exactly n bytes of its request stream. Enumerated part: representative streams (each command, a large set, pipelines, quiet batches, quiet sets, quit alone / after a miss / after a quiet set, quiet quit; 12 text + 17 binary) x 12 deployments (L1-only / L1L2 / batch port, direct or chunked per-connection handlers, with and without the locking wrapper) x every prefix length n = 0..len (quick: every n for a rotating quarter of the pairs, stride 7 plus both ends for the rest; thorough: every n), each cut also in the variant where the client sends and closes in the same instant so that rend's replies meet a dead socket (EPIPE, and at request ends also the silent write mode). Seeded part: random pipelines with a random cut. After quiescence: rend closed the client socket, every backend connection dialled for that client is closed, the goroutine count is back to the pre-connection baseline, every key lock acquired was released, and a fresh client is served on the same keys. Every case is non-trivial (a fault is injected in each); distinct = distinct plan hash",
 		Real:       append(append([]string{}, realFullStack...), "handlers/memcached/chunked", "server/utils.go abort"),
 		Stub:       stubFullStack,
 		FaultKinds: []string{"client_close"},
